@@ -49,7 +49,7 @@ COMPONENTS = {
     "stub": ["scheduler", "clock (time.time and file mtimes)",
              "stat metadata", "directory order", "temp names"],
 }
-PROBES = {"maintainer_removed_files": 1,
+PROBES = {"commit_written_during_maintenance": 1, "maintainer_removed_files": 1,
           "unreachable_pruned": 1, "young_unreachable_kept": 1,
           "lookup_during_maintenance": 1}
 MIN_BUDGET = 200
@@ -136,7 +136,12 @@ def gen_readers_plan(seed, rng, tier):
             faults.append({"actor": "maint", "nth": rng.randrange(0, 120),
                            "kind": rng.choice(["EIO", "EMFILE", "EACCES"]),
                            "on": "read"})
+    # a third process creates new history (loose objects, then a ref) while
+    # maintenance runs: what it wrote may not be swept away with the loose
+    # objects the maintainer packed
+    writer = rng.random() < 0.4 and not any(m in ("gc_none",) for m in maint)
     return {"kind": "readers", "seed": seed, "sched": _sched(rng),
+            "writer": writer,
             "n_commits": rng.randint(2, 5),
             "layout": rng.choice(["loose", "mixed", "mixed", "two_packs",
                                   "packed"]),
@@ -517,6 +522,7 @@ def run_readers(plan):
             r0.refs[k] = v
         r0.refs.set_symbolic_ref(b"HEAD", b"refs/heads/h0")
         reach = sorted(u.closure(list(hb["heads"]) + list(hb["tags"].values())))
+        reach_tip = hb["heads"][0]
         garbage = []
         if plan["garbage"]:
             g = H.gen_history(u, rng, 2, salt=b"GARB", tags=False)
@@ -667,6 +673,28 @@ def run_readers(plan):
                     r.close()
             return body
 
+        written = {}
+
+        def writer_body(a):
+            r = Repo(rp)
+            try:
+                for j in range(2):
+                    blob = u.blob(b"written during maintenance %d %d\n" %
+                                  (plan["seed"], j))
+                    tree = u.tree([(b"w%d.txt" % j, 0o100644, blob)])
+                    top = u.commit(tree, [reach_tip], 1700900000 + j,
+                                   b"concurrent %d\n" % j)
+                    u.add_to_store(r.object_store, [blob, tree, top])
+                    r.refs[b"refs/heads/written%d" % j] = top
+                    written[b"refs/heads/written%d" % j] = top
+                    sim.stat("probe:commit_written_during_maintenance")
+            except BaseException as e:  # noqa: BLE001
+                if not is_injected(e):
+                    raise
+            finally:
+                r.close()
+        if plan.get("writer"):
+            sim.actor("writer", writer_body)
         sim.actor("maint", maint)
         for spec in plan["readers"]:
             sim.actor(spec["name"], reader(spec))
@@ -695,6 +723,19 @@ def run_readers(plan):
                               "+".join(sorted(set(plan["maint"]))) +
                               ("/after-fault" if sim.fired else ""),
                               "detail": f"{lost[:4]}"})
+            # what the concurrent writer committed (its refs exist)
+            for rn, top in sorted(written.items()):
+                if fr.refs.read_ref(rn) != top:
+                    continue
+                lostw = [(w, i.decode()) for i in sorted(u.closure([top]))
+                         for w in [u.intact_in(fr.object_store, i)] if w]
+                if lostw:
+                    viols.append({
+                        "sig": "C10/reachable-lost/written-during-maintenance/"
+                        + "+".join(sorted(set(plan["maint"]))) +
+                        ("/after-fault" if sim.fired else ""),
+                        "detail": f"{rn!r}: {lostw[:3]}"})
+                    break
         finally:
             fr.close()
         nontrivial = changed and len(sim.trace_out) > 3
